@@ -10,7 +10,7 @@ Lemma toy_unbech_wf : unbech_wf toy_unbech.
 Proof. intros s a H. destruct s as [|c [|d r]]; simpl in H; try discriminate. inversion H. reflexivity. Qed.
 
 Definition toy_oracles : oracles :=
-  {| o_unbech := toy_unbech; o_fee_collector := [xff]; o_blocked := [];
+  {| o_unbech := toy_unbech; o_bech := (fun a => a); o_fee_collector := [xff]; o_blocked := [];
      o_b58key := fun _ => None; o_verify := fun _ _ _ => false |}.
 
 Definition A : bytes := b "A".   (* owner *)
